@@ -7,8 +7,20 @@ CONFIG = dict(
              'each parent on that parent\'s branch, forks at commits with several children, merge commits once per parent); the same with perturbed '
              'orders (commits consumed after non-parents, re-initialisation, dropped steps); damaged repositories (blobs missing from the store, strict '
              'submodule mode with complete / partial / unparsable / absent .gitmodules); histories with a name regexp that matches the empty string; '
-             'histories whose language verdict flips (open finding). Non-trivial = at least one accepted step on a branch holding a previous tree that '
-             'reports at least one change; distinct = distinct (configuration, commits, operation list).',
+             'histories whose language verdict flips (open finding). Scale streams (second round): scale-blob = blobs of 1023 .. 100000 bytes (thorough: up to '
+             '5 000 000) at c-1, c, c+1 of 1024, 4096, 8000, 8192, 2^15, 2^16, text and binary, one NUL at offset 0 / 100 / 1023 / 1024 / 7999 / 8000 / 8001 / '
+             'size-2 / size-1, every blob followed by a version that differs in ONE byte far behind (shared prefix) and by one that is one byte longer, added / '
+             'modified / deleted / moved, loaded through the rotating cache and afresh on new branches, plus random histories over big files; contents over '
+             '600 bytes are compared by length and two checksums, shorter ones byte by byte; scale-lang = 17 families of files whose language depends on how '
+             'much of the contents enry sees (licence comment of 0 .. 8100 bytes, dense around 1024, followed by code of another language; .h .m .pl .cls .inc '
+             '.sql .fs; vim / emacs modelines at the end; shebang lines) under language filters that allow the language of the 1024-byte head, of the whole '
+             'file, both or neither, present in the first commit, modified behind the head, deleted, re-added in a later commit, moved, and listed by fresh '
+             'branches that start in the middle; scale-tree = trees of 1025 and 4097 files (thorough: up to 100000) flat / sqrt(n) directories / a spine 64 '
+             'levels deep / half under blacklisted prefixes, steps touching every k-th file for k = 2^j, 2^j+-1, range deletions, mass additions, mode '
+             'changes, files turning into submodule entries, strict submodule mode with a complete .gitmodules; scale-chain = histories of 1025 commits '
+             '(thorough 10000) linear and as a DAG with forks and merges; scale-forks = up to 1025 (thorough 4097) branches alive after one Fork, merge '
+             'commits with 33 .. 65 (thorough 257) parents consumed on every parent\'s branch and refused elsewhere. Non-trivial = at least one accepted '
+             'step on a branch holding a previous tree that reports at least one change; distinct = distinct (configuration, commits, operation list).',
         exhaustive_note='all 1024 ordered pairs of the 32 trees over the slots {a.go: absent, 2 contents, executable, 2 submodule hashes, directory with 1 or 2 '
                         'files} x {c.py: absent, 2 contents, symlink}, replayed as first commit + diff step, under each of the pair configurations',
         assumptions=['go-git object.DiffTree (merkletrie) is not modelled: its output is an argument of the model and is judged on every replayed step by the '
@@ -19,7 +31,12 @@ CONFIG = dict(
                      'enry.IsVendor("") = false (hypothesis f_vendor f [] = false of the filter theorems; recorded in every case)',
                      'trees list every path once and no path is empty (tree_wfb, a boolean domain predicate evaluated on every replayed tree); the mode '
                      '0100664 that go-git hashes like 0100644 is not generated',
-                     'errors other than "object not found" from the object store, failing tree objects and failing blob readers are not modelled'],
+                     'errors other than "object not found" from the object store, failing tree objects and failing blob readers are not modelled',
+                     'enry.GetLanguage is assumed to be a function of (base name, head): its Bayesian classifier is not deterministic on some inputs (observed: '
+                     '"x.v" with a comment-only head, Coq / Verilog); such contents are kept out of the generators',
+                     'big inputs: contents over 600 bytes enter the model as the stand-in (length, checksum, checksum2), so "exact bytes" is equality of these three '
+                     'numbers there; steps over trees with more than 600 entries are validated path by path (changes_ok is a conjunction over paths); a BlobCache '
+                     'step with more than 12000 changes (thorough tier) is judged by the property oracle only and the model continues from the judged output'],
         trusted_base=['hand-written Gallina model coq/theories/TreeDiff/Model.v of internal/plumbing/tree_diff.go (Initialize, Consume, filterDiffs, checkLanguage, Fork) '
                       'and internal/plumbing/blob_cache.go (Initialize, Consume, getBlob, Fork) with internal/dummies.go, tied to the code by the replay of every harness case',
                       'go-git (tree walking, DiffTree, object storage, .gitmodules parsing), enry and Go regexp are third-party code outside the proof',
